@@ -271,6 +271,8 @@ def solve_check(kind, case, rec):
         for f in fc.fields:
             f.values[...] = rng.uniform(-1, 1, f.values.shape)
         ext0 = rng.uniform(-1, 1, k0)
+        if case["seed"] % 4 == 1:
+            ext0 = np.zeros(k0)  # complete unloading from a non-zero state: all prescribed values are zero, the field is not
     else:
         ext0 = None  # documented use: homogeneous prescribed unknowns
         for f in fc.fields:
